@@ -1301,3 +1301,239 @@ def camp_c04(rnd, tier):
     qv = b.conv(qb, "qbuild", keep=0)
     quad_queries(b, qv, Seqn.from_values([3]), rnd, rs=False, huge=ALLHUGE)
     return b
+
+
+# ------------------------------------------------------------------ C14 / C15 / C16 space
+
+
+def runs_profile(rnd, alphabet, weights):
+    """a sequence given as shuffled runs (cheap to count for the specification)"""
+    runs = [([a], w) for a, w in zip(alphabet, weights) if w > 0]
+    # split big runs so that symbols interleave
+    out = []
+    for (p, w) in runs:
+        k = rnd.choice([1, 2, 3])
+        for i in range(k):
+            part = w // k + (1 if i < w % k else 0)
+            if part > 0:
+                out.append((p, part))
+    rnd.shuffle(out)
+    return Seqn.from_runs(out)
+
+
+def space_tree_inputs(rnd, tier, ty, huff):
+    T = tmax(ty) if not huff else min(tmax(ty), 60000)
+    out = [("empty", Seqn.from_values([])), ("one", Seqn.from_values([min(T, 5)]))]
+    for n in ([1000, 20000] if tier == "quick" else [10, 1000, 20000, 100000]):
+        for mx in rnd.sample([1, 3, 4, 15, 16, 255, 256, 1000, 65535], 3 if tier == "quick" else 6):
+            mx = min(mx, T)
+            k = min(mx + 1, 60)
+            alph = sorted(set([0, mx] + [rnd.randrange(mx + 1) for _ in range(k)]))
+            if n * len(alph) <= 1500000:
+                out.append(("rand_n%d_m%d" % (n, mx), Seqn.from_values(rand_seq(rnd, n, alph) + [mx])))
+    # big inputs as runs: uniform, skewed, two symbols, single symbol
+    big = 300000 if tier == "quick" else 1000000
+    for mx in ([3, 255, 4000] if tier == "quick" else [1, 3, 15, 16, 255, 256, 4000, 65535]):
+        mx = min(mx, T)
+        k = min(mx + 1, 40)
+        alph = sorted(set([0, mx] + [rnd.randrange(mx + 1) for _ in range(k)]))
+        w = [big // len(alph)] * len(alph)
+        out.append(("big_uniform_m%d" % mx, runs_profile(rnd, alph, w)))
+        w = [max(1, int(big * 0.5 ** (i + 1))) for i in range(len(alph))]
+        out.append(("big_skewed_m%d" % mx, runs_profile(rnd, alph, w)))
+    out.append(("big_single", Seqn.from_runs([([min(T, 9)], big)])))
+    out.append(("big_two", runs_profile(rnd, [0, min(T, 200)], [big - 5, 5])))
+    return out
+
+
+def camp_space(rnd, tier, which):
+    b = Beh()
+    types = rotate(UTYPES, rnd)
+    kinds = {"plain": QUAD_PLAIN + ["WT"], "huff": QUAD_HUFF + ["HWT"], "all": TREE_KINDS}[which]
+    paths = rotate(["new", "from_vec", "collect"], rnd)
+    for kind in kinds:
+        huff = kind.startswith("H")
+        ty = next(types)
+        for name, s in space_tree_inputs(rnd, tier, ty, huff):
+            for path in (["new", "from_vec", "collect"] if (tier == "thorough" or len(s) <= 20001) else [next(paths)]):
+                b.reset()
+                o = b.newt(kind, ty, path, s)
+                b.space(o)
+    if which in ("plain", "all"):
+        for n in ([0, 1, 1000, 50000, 400000] if tier == "quick" else [0, 1, 255, 256, 257, 1000, 50000, 400000, 2000000]):
+            q = Seqn.from_runs([([0, 1, 2, 3, 3, 1], n // 6), ([2], n % 6)])
+            bits = Seqn.from_runs([([0, 1, 1, 0, 1], n // 5), ([0], n % 5)])
+            b.reset()
+            for kind in ("RSQ256", "RSQ512"):
+                for path, ty in (("new", "u8"), ("from_qv", "u64"), ("collect", "i32")):
+                    o = b.newq(kind, ty, path, q)
+                    b.space(o)
+            for path in ("new", "from"):
+                o = b.newb("RSW", path, bits)
+                b.space(o)
+            if which == "all":
+                o = b.newq("QV", "u8", "collect", q)
+                b.space(o)
+                for kind, path in (("RSN", "new"), ("DA0", "new"), ("DA1", "new"), ("DA1", "bools"), ("BV", "bools"), ("BV", "from_bvm"), ("BVM", "bools"), ("BVM", "with_zeros")):
+                    o = b.newb(kind, path, bits, n=n)
+                    b.space(o)
+    return b
+
+
+def camp_c14(rnd, tier):
+    return camp_space(rnd, tier, "plain")
+
+
+def camp_c15(rnd, tier):
+    return camp_space(rnd, tier, "huff")
+
+
+def camp_c16(rnd, tier):
+    return camp_space(rnd, tier, "all")
+
+
+# ------------------------------------------------------------------ C17 word-level utilities
+
+
+def bits_of(x, width):
+    return [i for i in range(width) if (x >> i) & 1]
+
+
+def camp_c17(rnd, tier):
+    b = Beh()
+    # the whole in-byte lookup table through the public function: every (byte, rank) pair in every byte lane
+    lanes = range(8) if tier == "thorough" else rnd.sample(range(8), 3)
+    for lane in lanes:
+        below = rnd.choice([0, 0xFF, 0x5A, 0x01])  # bytes below the lane, contributing to the rank
+        for byte in range(256):
+            w = 0
+            for j in range(lane):
+                w |= below << (8 * j)
+            w |= byte << (8 * lane)
+            if lane < 7 and rnd.random() < 0.5:
+                w |= rnd.randrange(256) << (8 * (lane + 1))
+            pc = bin(w).count("1")
+            ks = sorted(set(k for k in list(range(max(0, bin(w & ((1 << (8 * lane)) - 1)).count("1") - 1), min(64, pc + 2))) if k < 64))
+            b.util("select_in_word", w=bits_of(w, 64), ks=ks)
+    # words with few set bits, full bytes (carry cases), random words
+    special = [0, 1, 1 << 63, (1 << 64) - 1, 0xFF, 0xFF00, 0xFFFF, 0x8000000000000001, 0xFF00FF00FF00FF00, 0x0101010101010101,
+               0x8080808080808080, 0xFFFFFFFF, 0xFFFFFFFF00000000, 0x7FFFFFFFFFFFFFFF, 0xFFFFFFFFFFFFFFFE]
+    for i in range(64):
+        for j in range(i + 1, 64, 7 if tier == "quick" else 1):
+            special.append((1 << i) | (1 << j))
+    special += [rnd.getrandbits(64) for _ in range(300 if tier == "quick" else 5000)]
+    special += [rnd.getrandbits(64) & rnd.getrandbits(64) & rnd.getrandbits(64) for _ in range(100)]
+    special += [rnd.getrandbits(64) | rnd.getrandbits(64) | rnd.getrandbits(64) for _ in range(100)]
+    for w in special:
+        pc = bin(w).count("1")
+        ks = sorted(set([0, 1, pc - 1, pc, pc + 1, 63] + [rnd.randrange(64) for _ in range(4)]))
+        b.util("select_in_word", w=bits_of(w, 64), ks=[k for k in ks if 0 <= k < 64])
+    # 128-bit variant across the 64-bit seam
+    sp128 = [0, 1, 1 << 64, 1 << 127, (1 << 128) - 1, (1 << 64) - 1, ((1 << 64) - 1) << 64, (1 << 63) | (1 << 64), 0xFF << 60]
+    sp128 += [rnd.getrandbits(128) for _ in range(200 if tier == "quick" else 3000)]
+    sp128 += [rnd.getrandbits(64) << 64 for _ in range(20)] + [rnd.getrandbits(64) for _ in range(20)]
+    for w in sp128:
+        lo = bin(w & ((1 << 64) - 1)).count("1")
+        pc = bin(w).count("1")
+        ks = sorted(set([0, 1, lo - 1, lo, lo + 1, pc - 1, pc, pc + 1, 127] + [rnd.randrange(128) for _ in range(4)]))
+        # the contract is stated for k below 128 occurrences; the upper half is searched with k - popcount(low)
+        b.util("select_in_word_u128", w=bits_of(w, 128), ks=[k for k in ks if 0 <= k < 128 and (k < pc or k - lo < 64)])
+    # popcnt_wide
+    for n in (0, 1, 2, 3, 4, 5, 6, 7, 8, 16):
+        for _ in range(3 if tier == "quick" else 20):
+            L = rnd.choice([n, n + 1, n + 5, max(0, n - 1), 0])
+            ws = [rnd.choice([0, (1 << 64) - 1, rnd.getrandbits(64)]) for _ in range(L)]
+            b.util("popcnt_wide", n=n, ws=[bits_of(x, 64) for x in ws])
+    # msb
+    for ty in UTYPES:
+        bits = TY_BITS[ty]
+        vs = [0, 1, 2, 3, (1 << bits) - 1, 1 << (bits - 1), (1 << (bits - 1)) - 1]
+        for k in range(1, bits):
+            vs += [1 << k, (1 << k) - 1, (1 << k) + 1]
+        vs += [rnd.getrandbits(bits) for _ in range(30)]
+        for v in sorted(set(v for v in vs if 0 <= v < (1 << bits))):
+            b.util("msb", ty=ty, v=sym(v))
+    # stable partitions: all sequences <= L over 3-bit values embedded at every shift of every type
+    L = 4 if tier == "quick" else 5
+    base_seqs = []
+    for ln in range(0, L + 1):
+        for w in itertools.product(range(8), repeat=ln):
+            base_seqs.append(list(w))
+    for ty in UTYPES:
+        bits = TY_BITS[ty]
+        shifts = list(range(bits - 1)) if tier == "thorough" else sorted(set([0, 1, 2, 7, 8, 31, 32, 33, 62, 63, 64, 65, 100, 125, 126, bits - 2]) & set(range(bits - 1)))
+        for sh in shifts:
+            seqs = rnd.sample(base_seqs, 12 if tier == "quick" else 80) + [[rnd.randrange(8) for _ in range(rnd.choice([20, 100]))]]
+            for vals in seqs:
+                for m in ("part4", "part2"):
+                    if m == "part4" and sh + 2 > bits:
+                        continue
+                    noise_hi = rnd.getrandbits(bits)
+                    emb = []
+                    for v in vals:
+                        x = (v << sh) & ((1 << bits) - 1)
+                        # random bits above and below the inspected digit must not matter
+                        hi = (noise_hi >> (sh + 3)) << (sh + 3) if sh + 3 < bits else 0
+                        lo = rnd.getrandbits(sh) if sh > 0 else 0
+                        emb.append((x | hi | lo) & ((1 << bits) - 1))
+                    s = Seqn.from_values(emb)
+                    b.util(m, ty=ty, shift=sh, alpha=s.json_alpha(), seq=s.flat_ids())
+    # text_remap: all byte strings <= 4 over 4 values, plus random ones
+    vals4 = [0, 7, 200, 255]
+    for ln in range(0, 5 if tier == "thorough" else 4):
+        for w in itertools.product(vals4, repeat=ln):
+            b.util("text_remap", bytes=list(w))
+    for _ in range(40 if tier == "quick" else 400):
+        k = rnd.choice([1, 2, 5, 50, 256])
+        alph = rnd.sample(range(256), k)
+        b.util("text_remap", bytes=[rnd.choice(alph) for _ in range(rnd.choice([1, 10, 300]))])
+    return b
+
+
+# ------------------------------------------------------------------ C18 purity and sharing
+
+
+def query_batch(rnd, fam, s, ty, kind):
+    n = len(s)
+    pos = position_args(n, extra=s.boundaries(), rnd=rnd, k=20, huge=(-1,))
+    if fam == "T":
+        cs = [sym(c) for c in query_symbols(rnd, s, ty)]
+        batch = [{"m": "get", "cs": [], "as": pos}, {"m": "rank", "cs": cs, "as": pos}, {"m": "select", "cs": cs, "as": [0, 1, 2, 7, 100, 5000, -1]}]
+        if kind not in ("WT", "HWT"):
+            batch.append({"m": "rank_prefetch", "cs": cs, "as": pos})
+        return batch
+    if fam == "Q":
+        batch = [{"m": "get", "cs": [], "as": pos}]
+        if kind != "QV":
+            batch += [{"m": "rank", "cs": [0, 1, 2, 3, 4], "as": pos}, {"m": "select", "cs": [0, 1, 2, 3], "as": [0, 1, 50, 8192, -1]},
+                      {"m": "occs", "cs": [0, 1, 2, 3], "as": [0]}, {"m": "occs_smaller", "cs": [0, 1, 2, 3], "as": [0]}]
+        return batch
+    batch = [{"m": "get", "cs": [], "as": pos}]
+    ks = [0, 1, 31, 32, 1023, 1024, 8192, n // 3, -1]
+    if kind in ("RSN", "RSW"):
+        batch += [{"m": "rank1", "cs": [], "as": pos}, {"m": "rank0", "cs": [], "as": pos}]
+    if kind in ("RSN", "RSW", "DA0", "DA1"):
+        batch.append({"m": "select1", "cs": [], "as": ks})
+    if kind in ("RSN", "RSW", "DA1"):
+        batch.append({"m": "select0", "cs": [], "as": ks})
+    if kind in ("BV",):
+        batch += [{"m": "get_bits", "cs": [], "as": [[p, 17] for p in pos[:20]]}, {"m": "get_word", "cs": [], "as": list(range(min(8, (n + 63) // 64)))}]
+    return batch
+
+
+def camp_c18(rnd, tier):
+    b = Beh()
+    for rep in range(1 if tier == "quick" else 3):
+        b.reset()
+        for (o, fam, s, ty, kind) in all_kind_objects(b, rnd, tier):
+            if kind == "BVM":
+                continue
+            batch = query_batch(rnd, fam, s, ty, kind)
+            b.pure(o, batch)
+            # the sequential answers are themselves judged by the clause tables
+            for q in batch:
+                b.qg(o, q["m"], q["cs"], q["as"])
+            b.thr(o, rnd.choice([2, 8, 16]), rnd.choice([3, 20]) if tier == "quick" else rnd.choice([20, 200]), batch)
+            b.pure(o, batch)
+            b.drop(o)
+    return b
